@@ -84,7 +84,11 @@ def rn_pre(ls, f):
 
 def _same_data(v, D):
     """v is the raw data slice D of the current dimension"""
-    return v == D
+    if v == D:
+        return True
+    from .. import algebra
+    return isinstance(v, tuple) and v and v[0] == 'vslice' and v[1] == D[1] and \
+        algebra.equal(v[2], D[2])[0] and algebra.equal(v[3], D[3])[0]
 
 
 def check(ctx):
@@ -280,9 +284,12 @@ def check(ctx):
         body = tmpv['body']
         # the smoothed datum of the bin: the value tested against zero
         t_ = None
-        if isinstance(body, tuple) and body[0] == 'ite' and isinstance(body[1], tuple) and body[1][0] == '!=' \
-                and body[1][2] == ZERO:
-            t_ = body[1][1]
+        if isinstance(body, tuple) and body[0] == 'ite':
+            c_ = norm_cond(body[1])
+            if isinstance(c_, tuple) and len(c_) == 3 and c_[0] in ('!=', '==') and ZERO in (c_[1], c_[2]):
+                t_ = c_[2] if c_[1] == ZERO else c_[1]
+                if c_[0] == '==':
+                    body = ('ite', ('!=', t_, ZERO), body[3], body[2])
         if t_ is None:
             raise AnalysisBroken('guard `smoothed datum != 0` of the importance not recognised')
         if not (isinstance(t_, tuple) and t_[0] in ('sel', 'ite')):
@@ -381,18 +388,27 @@ def check(ctx):
 
     # ---------------------------------------------------------------- R3 uniform grid end points
     ctor = [c for c in instances(p, 'hep::vegas_pdf::vegas_pdf') if len(c.params) == 2 and not c.is_implicit
-            and c.params[0].name == 'dimensions']
+            and 'istream' not in (c.params[0].type or '') and 'vector' not in (c.params[0].type or '')]
     ctx.count('vegas_pdf(dimensions, bins) constructors', len(ctor), 1)
     for c in ctor:
         ctx.analysed(c)
 
         def rc(c=c):
             sc, exc = summarise(p, c)
-            B, D = sym('bins'), sym('dimensions')
-            fill = [l for l in sc.loops if l.func is c and (l.lo, l.hi) == (ZERO, add(B, ONE))]
-            if len(fill) != 1 or 'this.x' not in fill[0].updates or fill[0].updates['this.x']['kind'] != 'map':
+            B, D = sym(c.params[1].name), sym(c.params[0].name)
+            xlv = ('lv', ('this', 'this'), (('f', 'x'),))
+            fill = []
+            for l in sc.loops:
+                u_ = upd_by_loc(l, xlv)
+                # the loop that computes the boundaries (not one that replicates them: its body reads x)
+                if l.func is c and (l.lo, l.hi) == (ZERO, add(B, ONE)) and u_ is not None and u_['kind'] == 'map' \
+                        and not T.occurs(u_['body'], u_['pre']) and \
+                        not any(isinstance(t, tuple) and t and t[0] == 'sel' for t in T.subterms(u_['body'])):
+                    fill.append((l, u_))
+            if len(fill) != 1:
                 raise AnalysisBroken('uniform fill loop of vegas_pdf(dimensions, bins) not recognised')
-            body = fill[0].updates['this.x']['body']
+            body = fill[0][1]['body']
+            fill = [fill[0][0]]
             k = fill[0].idx
             check_equal(ctx, 'R3.uniform_left_end', fsite(c), 'first boundary of the default grid',
                         T.subst(body, {k: ZERO}), ZERO)
